@@ -4,7 +4,7 @@
    the token stream of the lexer (hook types.VerifTokens: kind, unescaped text, reader line and column after each
    token, and how the stream ended) and the outcome of types.Parse (class, line, column, and the value). *)
 From Coq Require Import ZArith NArith Bool List.
-From PcoreV Require Import Model.Base Model.Lexer Model.Parser.
+From PcoreV Require Import Model.Base Model.Lexer Model.Parser Model.Resolve.
 Import ListNotations.
 Open Scope Z_scope.
 
@@ -65,3 +65,52 @@ Definition parse_check (c : c06case) : bool :=
 
 Definition lex_mismatches (cs : list c06case) : list N := failing lex_check cs.
 Definition parse_mismatches (cs : list c06case) : list N := failing parse_check cs.
+
+(* ---- the resolve stage (Model/Resolve.v) ------------------------------------------------------------------
+
+   A case holds the parameters of a type expression as types.Parse built them and what Context.ParseType did:
+   kind 0  Enum[parameters], all parameters plain (resolveValue hands them to the creator unchanged): the Enum type's
+           values and flag (EnumType.Get), or the index of the ILLEGAL_ARGUMENT_TYPE raised by `Enum[]`;
+   kind 1  T[Deferred(name, plain arguments)] for any type name T but TypeSet: whether the outcome is UNKNOWN_VARIABLE
+           (and for which name) - the scope of resolveValue is empty, so this is the outcome exactly when
+           deferred.Resolve takes the name for a variable.
+   rc_lower is the table of strings.ToLower on the strings among the parameters. *)
+Record c06rcase := mkRCase {
+  rc_kind : nat;
+  rc_args : list pv;                 (* kind 0: the parameters; kind 1: [PCall name arguments] *)
+  rc_lower : list (str * str);
+  rc_class : nat;                    (* 0 a type (kind 0: an Enum type) | 1 ILLEGAL_ARGUMENT_TYPE of Enum[] at rc_index
+                                        | 2 Go runtime fault, raw or wrapped | 3 anything else | 4 UNKNOWN_VARIABLE rc_name *)
+  rc_index : Z;
+  rc_values : list str;
+  rc_ci : bool;
+  rc_name : str }.
+
+Definition lower_oracle (l : list (str * str)) (k : str) : str :=
+  match assoc_str l k with Some r => r | None => k end.
+
+Definition resolve_check (c : c06rcase) : bool :=
+  match rc_kind c with
+  | 0%nat =>
+    all_plain (rc_args c) &&
+    match enum_create (lower_oracle (rc_lower c)) (rc_args c) with
+    | EOk vs ci => Nat.eqb (rc_class c) 0 && list_eqb str_eqb vs (rc_values c) && Bool.eqb ci (rc_ci c)
+    | EErr i => Nat.eqb (rc_class c) 1 && Z.eqb i (rc_index c)
+    | EFault => Nat.eqb (rc_class c) 2
+    | EOutOfFuel => false
+    end
+  | 1%nat =>
+    match rc_args c with
+    | [PCall name args] =>
+      all_plain args &&
+      match deferred_target name with
+      | DVar vn => Nat.eqb (rc_class c) 4 && str_eqb vn (rc_name c)
+      | DFunc _ => negb (Nat.eqb (rc_class c) 4) && negb (Nat.eqb (rc_class c) 2)
+      | DFault => Nat.eqb (rc_class c) 2
+      end
+    | _ => false
+    end
+  | _ => false
+  end.
+
+Definition resolve_mismatches (cs : list c06rcase) : list N := failing resolve_check cs.
